@@ -12,7 +12,10 @@ edn_value_t* edn_read_discarded_value(edn_parser_t* parser) {
     bool old_discard_mode = parser->discard_mode;
     parser->discard_mode = true;
 
+    /* The discarded form is one level deeper (bounds nested #_#_... chains) */
+    parser->depth++;
     edn_value_t* discarded = edn_read_value(parser);
+    parser->depth--;
 
     /* Restore discard mode */
     parser->discard_mode = old_discard_mode;
